@@ -7,7 +7,7 @@
 From Coq Require Import List NArith Bool.
 From Coq Require Import Strings.Byte.
 From GoBT Require Import lib.Bytes lib.VarInt lib.Sha256 model.Tx spec.DigestSpec model.SigHash
-  model.SigHashWire proofs.SigHashProofs.
+  model.SigHashWire proofs.SigHashProofs proofs.AuditASigHash.
 Import ListNotations.
 Local Open Scope N_scope. Local Open Scope bool_scope.
 
@@ -62,7 +62,11 @@ Theorem C02_forkid_sighash_is_spec : forall t i ht inp sc,
 Proof. exact forkid_sighash_is_spec. Qed.
 Print Assumptions C02_forkid_sighash_is_spec.
 
-(** computing the preimage / the hash leaves the transaction unchanged *)
+(** computing the preimage / the hash leaves the transaction unchanged
+    (holds by construction of the model: every branch returns the transaction it was given, and values of the
+    model are immutable, so no model of this shape could say otherwise; the clause - no write through the
+    pointers the Go code holds, no stale memo - is carried by the correspondence, which compares the real object
+    before and after and re-hashes after in-place edits) *)
 Theorem C02_forkid_leaves_tx_unchanged : forall t i ht, snd (calc_input_preimage t i ht) = t.
 Proof. exact forkid_leaves_tx_unchanged. Qed.
 Print Assumptions C02_forkid_leaves_tx_unchanged.
@@ -70,6 +74,23 @@ Theorem C02_sighash_leaves_tx_unchanged : forall t i ht, has_forkid ht = true ->
   snd (calc_input_signature_hash t i ht) = t.
 Proof. exact sighash_leaves_tx_unchanged_forkid. Qed.
 Print Assumptions C02_sighash_leaves_tx_unchanged.
+
+(** one statement of totality: on every transaction, every uint32 index and every 8-bit type the function answers
+    with a preimage or with one of the three errors - never with the panic outcomes of the model (index out of
+    range, nil dereference) *)
+Theorem C02_forkid_preimage_total : forall t i ht, ht < 256 -> i < two32 ->
+  N.of_nat (length (tx_outs t)) < two31 -> answers_s (fst (calc_input_preimage t i ht)).
+Proof. exact forkid_preimage_total. Qed.
+Print Assumptions C02_forkid_preimage_total.
+
+(** the FORKID preimage reads no unlocking script: two transactions that differ only in unlocking scripts (of
+    the signed input or of any other) give the same preimage - no hypothesis at all.  This is what lets
+    FillAllInputs sign input 0 before input 1 has its script and have it verified afterwards. *)
+Theorem C02_forkid_ignores_unlocking_scripts : forall t1 t2 i ht,
+  erase_unlocks t1 = erase_unlocks t2 ->
+  fst (calc_input_preimage t1 i ht) = fst (calc_input_preimage t2 i ht).
+Proof. exact forkid_ignores_unlocking_scripts. Qed.
+Print Assumptions C02_forkid_ignores_unlocking_scripts.
 
 (** sanity of the specification: 156 bytes of fixed-width fields + CompactSize-prefixed script code *)
 Theorem C02_preimage_length : forall tx nIn inp sc amount ht p,
